@@ -82,6 +82,44 @@ def r1_read_only(ctx) -> None:
     n = 0
     for f in _validator_functions(prog):
         q = f.qual
+        # locals bound to a container that is reached through a rule-model object without a copy (`refs = rule.references`):
+        # a mutation through the local is a mutation of the rule
+        alias_model: dict[str, list[str]] = {}
+        changed = True
+        while changed:
+            changed = False
+            for st in walk_no_nested(f.node):
+                if isinstance(st, ast.Assign) and len(st.targets) == 1 and isinstance(st.targets[0], ast.Name):
+                    nm, v = st.targets[0].id, st.value
+                elif isinstance(st, ast.AnnAssign) and isinstance(st.target, ast.Name) and st.value is not None:
+                    nm, v = st.target.id, st.value
+                elif isinstance(st, ast.NamedExpr):
+                    nm, v = st.target.id, st.value
+                else:
+                    continue
+                while isinstance(v, ast.Call) and call_name(v).split(".")[-1] == "cast" and len(v.args) == 2:
+                    v = v.args[1]
+                if isinstance(v, ast.IfExp):
+                    cands = [v.body, v.orelse]
+                elif isinstance(v, ast.BoolOp):
+                    cands = list(v.values)
+                else:
+                    cands = [v]
+                found: list[str] = []
+                for cv in cands:
+                    root = cv
+                    if not isinstance(root, (ast.Attribute, ast.Subscript, ast.Name)):
+                        continue
+                    while isinstance(root, (ast.Attribute, ast.Subscript)):
+                        root = root.value
+                        found += [c for c in types.class_names(f.module, root) if c.startswith(RULE_MODEL_PREFIXES)]
+                    if isinstance(root, ast.Name) and root.id in alias_model and cv is not root:
+                        found += alias_model[root.id]
+                    elif isinstance(cv, ast.Name) and cv.id in alias_model:
+                        found += alias_model[cv.id]
+                if found and nm not in alias_model:
+                    alias_model[nm] = found
+                    changed = True
         for x in walk_no_nested(f.node):
             loc = f"{f.module.relpath}:{getattr(x, 'lineno', f.node.lineno)}"
             tgt = None
@@ -101,6 +139,8 @@ def r1_read_only(ctx) -> None:
                 while isinstance(root, (ast.Attribute, ast.Subscript)):
                     root = root.value
                     chain_model += [c for c in types.class_names(f.module, root) if c.startswith(RULE_MODEL_PREFIXES)]
+                if isinstance(root, ast.Name) and root.id in alias_model:
+                    chain_model += alias_model[root.id]
                 is_self_state = isinstance(root, ast.Name) and root.id == "self"
                 if (model or chain_model) and not (is_self_state and not model and not _self_attr_holds_rule_container(f, tgt)):
                     # storing a rule *into* the validator's own table is fine (self.ids[...].append(rule)); mutating the rule is not
